@@ -68,6 +68,7 @@ CHECKS["C13"] = {
 }
 
 CHECKS["C05"] = {
+    "corpus": True,
     "runs": [R("./vm", {"fn": r"^ZZ_C05_"})],
     "expect_asserts": [r"C05\.\+/int,int/value", r"C05\.</int,float/value", r"C05\.int64Value/value", r"C05\.string\+string/value", r"C05\.%/int,int/zero-divisor-is-error"],
     "bounds": {"numeric payloads": "none: all 2^64 x 2^64 operand pairs per operator and class pair (int64/float64), decided per path by the solver",
@@ -80,6 +81,7 @@ CHECKS["C05"] = {
 }
 
 CHECKS["C06"] = {
+    "corpus": True,
     "runs": [R("./vm", {"fn": r"^ZZ_C06_"})],
     "expect_asserts": [r"C06\.symmetric/.*", r"C06\.int-float/eq-iff-le-and-ge", r"C06\.string-number/decimal-numeral", r"C06\.pool/int-float-eq-iff-le-and-ge", r"C06\.in-agrees/.*", r"C06\.switch-agrees/.*"],
     "bounds": {"classes": "12 value classes x 12 (ordered pairs): nil, bool, int64, float64, int32, float32 (pool), uint8, decimal numeral strings (pool of 10), non-numeral strings (pool of 8), symbolic strings <=2, []interface{} <=2, map <=1",
@@ -90,6 +92,7 @@ CHECKS["C06"] = {
 }
 
 CHECKS["C19"] = {
+    "corpus": True,
     "runs": [
         R("./core", {"fn": r"^ZZ_C19_(range_misuse|range_sym_n[0-2]|range_pool_n[34]|keys|typeOf_kindOf|toInt_toFloat|toString_toRune_slices)$"},
                     {"fn": r"^ZZ_C19_"}),
